@@ -107,7 +107,9 @@ fn run_case(case: &Value, variation: u64, vbp: &Path, scratch: &Path) -> Vec<Pro
     let style = r.u64(..);
     match c("desc") {
         "ok" | "otherapi" => {
-            let mut s = format!("api = \"{}\"\n\n[buildpack]\nid = \"{bp_id}\"\nversion = \"1.2.3\"\nname = \"V b p\"\n\n[[targets]]\nos = \"linux\"\narch = \"amd64\"\n\n", if c("desc") == "ok" { "0.10" } else { "0.9" });
+            // (every other descriptor declares one SBOM format; what the build result provides is written whatever is declared)
+            let declared = if r.bool() { "sbom-formats = [\"application/vnd.cyclonedx+json\"]\n" } else { "" };
+            let mut s = format!("api = \"{}\"\n\n[buildpack]\nid = \"{bp_id}\"\nversion = \"1.2.3\"\nname = \"V b p\"\n{declared}\n[[targets]]\nos = \"linux\"\narch = \"amd64\"\n\n", if c("desc") == "ok" { "0.10" } else { "0.9" });
             emit_table(&["metadata".to_string()], &desc_md, style, &mut s);
             fs::write(bp.join("buildpack.toml"), s).unwrap();
         }
